@@ -12,6 +12,7 @@ package main
 // files that coq/theories/LedgerCheck.v evaluates.
 
 import (
+	"bytes"
 	"encoding/json"
 	"fmt"
 	"math/big"
@@ -20,6 +21,7 @@ import (
 	"strings"
 
 	"github.com/Oneledger/protocol/action"
+	"github.com/Oneledger/protocol/action/olvm"
 	ethchain "github.com/Oneledger/protocol/chains/ethereum"
 	"github.com/Oneledger/protocol/data/balance"
 	"github.com/Oneledger/protocol/data/delegation"
@@ -29,6 +31,10 @@ import (
 	"github.com/Oneledger/protocol/data/rewards"
 	"github.com/Oneledger/protocol/identity"
 	"github.com/Oneledger/protocol/serialize"
+	"github.com/Oneledger/protocol/utils"
+	ethcmn "github.com/ethereum/go-ethereum/common"
+	ethtypes "github.com/ethereum/go-ethereum/core/types"
+	ethcrypto "github.com/ethereum/go-ethereum/crypto"
 )
 
 // buckets (the numbers are shared with coq/theories/Ledger.v)
@@ -319,12 +325,28 @@ func c02Decode(m map[string]string) *c02View {
 				if json.Unmarshal([]byte(val), &o) == nil && o.TotalSupplyAddr != "" {
 					v.Protocol[keys.Address(o.TotalSupplyAddr).String()] = true
 				}
-			case strings.HasPrefix(k, "contracts_") || strings.HasPrefix(k, "keeper_"):
-				// contract accounts are not externally owned: their balance moves by other people's calls
-				for _, part := range strings.Split(k, "_") {
-					if c02IsAddr(part) {
-						v.Protocol[part] = true
+			case strings.HasPrefix(k, "keeper_"):
+				// account-keeper record (nonce, code hash) of an address that took part in an OLVM transaction: no value
+				// (the balance is the b_ record).  An account WITH code is a contract: not externally owned - its
+				// balance moves by other people's calls (C17).  A plain sender stays externally owned.
+				acc := &balance.EthAccount{}
+				if err := serialize.GetSerializer(serialize.PERSISTENT).Deserialize([]byte(val), acc); err != nil {
+					if json.Unmarshal([]byte(val), acc) != nil {
+						v.Bad = append(v.Bad, k)
+						break
 					}
+				}
+				if acc.Coins.Amount != nil && acc.Coins.Amount.BigInt().Sign() != 0 {
+					v.Bad = append(v.Bad, k) // a keeper record that holds value itself would be outside the ledger
+				}
+				if len(acc.CodeHash) != 0 && !bytes.Equal(acc.CodeHash, c02EmptyCodeHash) {
+					v.Protocol[keys.Address(k[len("keeper_"):]).String()] = true
+				}
+			case strings.HasPrefix(k, "contracts_"):
+				// code (0x01 | address) and storage (0x02 | address | slot) of a contract: no value
+				rest := k[len("contracts_"):]
+				if len(rest) >= 21 && (rest[0] == 1 || rest[0] == 2) {
+					v.Protocol[keys.Address(rest[1:21]).String()] = true
 				}
 			}
 		}
@@ -435,9 +457,45 @@ func (in *c02Intern) diff(a, b map[c02Key]*big.Int) []c02Rec {
 
 // ---------- authority ----------
 
+var c02EmptyCodeHash = ethcrypto.Keccak256(nil)
+
+// c02OLVMSender recovers, with go-ethereum's own signer, the account that signed an OLVM transaction: the
+// signature is an EIP-155 signature over the embedded Ethereum transaction (nonce, gas price = fee price,
+// gas = fee gas, to, value, data) for this chain's id.  Independent of the payload's From field and of the handler.
+func c02OLVMSender(tx *action.SignedTx, chainID string) (string, bool) {
+	m := &olvm.Transaction{}
+	if m.Unmarshal(tx.Data) != nil || len(tx.Signatures) != 1 {
+		return "", false
+	}
+	var to *ethcmn.Address
+	if m.To != nil {
+		t := ethcmn.BytesToAddress(m.To.Bytes())
+		to = &t
+	}
+	etx := ethtypes.NewTx(&ethtypes.LegacyTx{Nonce: m.Nonce, To: to, Value: m.Amount.Value.BigInt(), Gas: uint64(tx.Fee.Gas),
+		GasPrice: tx.Fee.Price.Value.BigInt(), Data: m.Data})
+	signer := ethtypes.NewEIP155Signer(utils.HashToBigInt(chainID))
+	etx, err := etx.WithSignature(signer, tx.Signatures[0].Signed)
+	if err != nil {
+		return "", false
+	}
+	addr, err := signer.Sender(etx)
+	if err != nil {
+		return "", false
+	}
+	return keys.Address(addr.Bytes()).String(), true
+}
+
 // accounts whose signature on this transaction verifies (what "signed a transaction" means)
-func c02SignedBy(tx *action.SignedTx) []string {
-	out := []string{}
+func c02SignedBy(tx *action.SignedTx, chainID string) (out []string) {
+	defer func() { recover() }()
+	out = []string{}
+	if tx.Type == action.OLVM {
+		if a, ok := c02OLVMSender(tx, chainID); ok {
+			out = append(out, a)
+		}
+		return out
+	}
 	raw := tx.RawBytes()
 	for _, s := range tx.Signatures {
 		h, err := s.Signer.GetHandler()
